@@ -222,36 +222,38 @@ def check_generated_state_machines(ctx):
                       'gsm_blurloss %d 200000 200000 700000 %d 0' % (int(src), MODES[mode]), lambda i, t, c: '%s %s %d' % (i, t, c[2]),
                       lambda o, i, t, c: o(i, t, gaze=gazes[c[2]]), rand_calls())
 
-    # ---- MetamericLossUniform, all-zero prepared target on a NEW object (the hypothesis `hz` of the tie theorem)
-    sh = (1, 1, 32, 32)
-    image, zero, other = _img(3, sh), torch.zeros(sh), _img(4, sh)
-    first = P.MetamericLossUniform(n_pyramid_levels=2, n_orientations=2, pooling_size=8)
-    try:
-        first(image, zero)
-        impl_first = 'returns'
-    except Exception as e:
-        impl_first = 'raises ' + type(e).__name__
-    later = P.MetamericLossUniform(n_pyramid_levels=2, n_orientations=2, pooling_size=8)
-    later(image, other)
-    try:
-        later(image, zero)
-        impl_later = 'returns'
-    except Exception as e:
-        impl_later = 'raises ' + type(e).__name__
-    lines = ['gsm_uniform 8 2 1 %s %s 0 0' % (tok(1, sh, 11), tok(2, sh, 0)),
-             'gsm_uniform 8 2 2 %s %s 0 0 %s %s 0 0' % (tok(1, sh, 11), tok(2, sh, 12), tok(3, sh, 11), tok(4, sh, 0))]
-    m_first, m_later = [o.split('|') for o in ctx.model.ask(lines)]
-    mo_first = 'raises' if m_first[-1] == 'RAISE' else 'returns'
-    mo_later = 'raises' if m_later[-1] == 'RAISE' else 'returns'
-    ctx.case(('gsm', 'MetamericLossUniform/zero target'), True)
-    ctx.count('MetamericLossUniform/all-zero target: new object %s, object with a history %s' % (impl_first, impl_later))
-    if impl_first.split()[0] != mo_first or impl_later.split()[0] != mo_later:
-        ctx.alarm('correspondence', 'MetamericLossUniform with an all-zero target: the implementation %s on a new object and %s after another call, '
-                  'the regenerated step function %s / %s' % (impl_first, impl_later, mo_first, mo_later))
-    elif impl_first != impl_later:
-        ctx.note('MetamericLossUniform: a call with an all-zero single-channel target %s on a new object and %s on an object that saw another target '
-                 'before (regenerated step function: the same; theorem C17_gen_metameric_loss_uniform_zero_target_depends_on_history)'
-                 % (impl_first, impl_later))
+    # ---- MetamericLossUniform, all-zero prepared target on a NEW object: MONITORED (up to /repo 20de69e a new object compared the target with
+    #      zeros(target.shape), skipped calc_statsmaps and raised AttributeError; theorem C17_gen_metameric_loss_uniform_zero_target_first_call_returns)
+    for sh, space in (((1, 1, 32, 32), 'RGB'), ((1, 3, 32, 32), 'YCrCb')):
+        image, zero, other = _img(3, sh), torch.zeros(sh), _img(4, sh)
+        rec = {'class': 'MetamericLossUniform', 'shape': list(sh), 'image_colorspace': space, 'target': 'all zeros', 'seed': ctx.seed}
+
+        def attempt(obj):
+            try:
+                return float(obj(image, zero, image_colorspace=space))
+            except Exception as e:
+                return 'raises %s' % type(e).__name__
+        first = attempt(P.MetamericLossUniform(n_pyramid_levels=2, n_orientations=2, pooling_size=8))
+        later_obj = P.MetamericLossUniform(n_pyramid_levels=2, n_orientations=2, pooling_size=8)
+        later_obj(image, other, image_colorspace=space)
+        later = attempt(later_obj)
+        ctx.case(('gsm', 'MetamericLossUniform/zero target', sh, space), True, rec)
+        ctx.count('MetamericLossUniform/all-zero prepared target (%d channels, %s): new object %s, object with a history %s'
+                  % (sh[1], space, 'returns' if not isinstance(first, str) else first, 'returns' if not isinstance(later, str) else later))
+        same = not isinstance(first, str) and not isinstance(later, str) and abs(first - later) <= 1e-5 * max(1.0, abs(later))
+        if not same:
+            ctx.violation('MetamericLossUniform with an all-zero prepared target (%d channels, colour space %s): a new object gives %s, an object that saw '
+                          'another target before gives %s' % (sh[1], space, first, later), rec,
+                          {'class': 'MetamericLossUniform', 'what': 'zero_target_first_call'})
+        cs = SPACES[space]
+        lines = ['gsm_uniform 8 2 1 %s %s %d 0' % (tok(1, sh, 11), tok(2, sh, 0), cs),
+                 'gsm_uniform 8 2 2 %s %s %d 0 %s %s %d 0' % (tok(1, sh, 11), tok(2, sh, 12), cs, tok(3, sh, 11), tok(4, sh, 0), cs)]
+        m_first, m_later = [o.split('|') for o in ctx.model.ask(lines)]
+        mo = ['raises' if m[-1] == 'RAISE' else 'returns' for m in (m_first, m_later)]
+        im = ['raises' if isinstance(v, str) else 'returns' for v in (first, later)]
+        if mo != im or (mo[0] == 'returns' and 'target_stats' not in m_first[0].split(',')):
+            ctx.alarm('correspondence', 'MetamericLossUniform with an all-zero prepared target: the implementation %s on a new object and %s after another '
+                      'call, the regenerated step function %s / %s (stores on the first call: %s)' % (im[0], im[1], mo[0], mo[1], m_first[0]))
 
     # ---- the fovea mask formula of MetamericLoss.calc_statsmaps
     lines, expect = [], []
